@@ -1966,7 +1966,7 @@ func (s *verifC14Suite) TestVerifC14(c *C) {
 		// part 1: exactly the exploration of the quick tier (scene requests in any position, sequences of <= 3 requests)
 		x.ops, x.events, x.leafScenes = c14Menu(false), []string{"doing", "undoing", "done", "error"}, false
 		x.explore("quickpart_", 3)
-		r.Max("quick_part_max_request_level_completed", int64(x.completed))
+		r.Max("max_request_level_completed_in_quick_part", int64(x.completed))
 		// part 2: the thorough menu and events to depth 4; a scene request may be the last request of a sequence only
 		x.ops, x.events, x.leafScenes = ops, []string{"doing", "undoing", "wait", "done", "error"}, true
 		x.explore("", depth)
